@@ -17,7 +17,7 @@ CHECKS = {
    "DESIGN.md §2 C07"),
  "C20": ("model_checking", "E1-choice",
    "stateless choice-tree exploration of encrypted containers (OOXML-in-CFB, BIFF8 FILEPASS, ods manifests) and of unencrypted workbooks on the real readers",
-   "Encrypted OOXML packages (6 sizes around the mini-stream cutoff, 4 EncryptionInfo variants, DataSpaces storage or not) in CFB layouts (v3/v4, 5 sector orders, directory variations, stale bytes after name terminators) opened with Xlsx and Xlsb; BIFF workbooks with FILEPASS of 5 kinds (BIFF8 RC4, XOR, CryptoAPI v2/v4; the 4-byte BIFF5 XOR form in a Book stream) at both legal positions with garbled record bodies; ods manifests with encryption-data on the first, a middle, the last, all or several of 3-5 entries, with or without a leading manifest:keyinfo element: every one must fail with the reader's Password error. Conversely unencrypted xlsx (every C01 encoding), xlsb, xls (CFB layouts, extra streams, WRITEPROTECT) and ods workbooks whose names and strings spell the trigger words must open. Full product for ods/plain (thorough: all families), <=3 deviations otherwise.",
+   "Encrypted OOXML packages (6 sizes around the mini-stream cutoff, 4 EncryptionInfo variants, DataSpaces storage or not) in CFB layouts (v3/v4, 5 sector orders, directory variations, stale bytes after name terminators) opened with Xlsx and Xlsb; BIFF workbooks with FILEPASS of 5 kinds (BIFF8 RC4, XOR, CryptoAPI v2/v4; the 4-byte BIFF5 XOR form in a Book stream) at both legal positions with garbled record bodies; ods manifests with encryption-data on the first, a middle, the last, all or several of 3-5 entries, with or without a leading manifest:keyinfo element: every one must fail with the reader's Password error. Conversely unencrypted xlsx (every C01 encoding), xlsb, xls (CFB layouts, extra streams, WRITEPROTECT, PROTECT + PASSWORD verifier) and ods workbooks whose names and strings spell the trigger words must open. Full product for ods/plain (thorough: all families), <=3 deviations otherwise.",
    "Trusted: the container writers; ciphertext is pseudo-random.",
    "DESIGN.md §2 C20"),
  "C18": ("model_checking", "E1-choice",
@@ -27,12 +27,12 @@ CHECKS = {
    "DESIGN.md §2 C18"),
  "C15": ("model_checking", "E1-choice",
    "complete enumeration of master formulas (templates x reference alphabet) x offsets through the real translator vs a reference shift; choice-tree exploration of group shapes end to end",
-   "(a) 40 formula templates (function names ending in digits, apostrophes inside string literals and double quotes inside quoted sheet names, names that only look like references (XFE1, A1048577, A0, B01), defined names with non-ASCII letters ending like a cell reference, sheet-qualified / quoted / non-ASCII sheet names, strings with cell-like text and doubled quotes, exponent numbers, names with digits) with 24 references (all absolute/relative combinations at A1, Z10, AA5, ZZ100, C16384, B20000) in every slot are translated by every offset of a window through the real replace_cell_names and compared with the piecewise reference shift; (b) groups of 7 shapes (1-D and 2-D) at 3 master positions with every master formula, the master not being the top-left cell of the declared range, a second group, swapped si order, a non-member cell inside the range, prefix, implicit references, rows that never carry r and indented XML are read through worksheet_formula (<=2, thorough 3 deviations): every member must carry its translated formula, other cells theirs.",
+   "(a) 40 formula templates (function names ending in digits, apostrophes inside string literals and double quotes inside quoted sheet names, names that only look like references (XFE1, A1048577, A0, B01), defined names with non-ASCII letters ending like a cell reference, sheet-qualified / quoted / non-ASCII sheet names, strings with cell-like text and doubled quotes, exponent numbers, names with digits) with 24 references (all absolute/relative combinations at A1, Z10, AA5, ZZ100, C16384, B20000) in every slot are translated by every offset of a window through the real replace_cell_names and compared with the piecewise reference shift; (b) groups of 7 shapes (1-D and 2-D) at 3 master positions with every master formula, the master not being the top-left cell of the declared range, a second group (below, or with its master on the last row of the first), members repeating the master text, swapped si order, a non-member cell inside the range, prefix, implicit references, rows that never carry r and indented XML are read through worksheet_formula (<=2, thorough 3 deviations): every member must carry its translated formula, other cells theirs.",
    "Trusted: the piece-list reference in props/c15.rs and gen/xlsx.rs. Offsets keep references inside the sheet.",
    "DESIGN.md §2 C15"),
  "C14": ("model_checking", "E1-choice",
    "complete enumeration of formula ASTs up to depth 2 (thorough: + depth 3 layer) serialised to BIFF8/BIFF12 token streams and rendered by the real parsers, vs the AST's own A1 renderer; sub-lattice end to end at cell positions",
-   "About 160 k (thorough 4 M) ASTs per binary format over cell refs (4 absolute/relative combinations x columns A..IV/XFD x first/last row), areas, 3-D refs and areas through a non-identity XTI table, defined names, int/float/8- and 16-bit string/bool/error literals, unary, 15 binary, parentheses, fixed- and variable-arity functions (incl. omitted arguments and CHOOSE), deleted references (PtgRefErr/AreaErr, 2-D and 3-D) and PtgAttrSum are serialised in both operand classes and once more with the control tokens applications write (PtgAttrSemi, PtgAttrIf/Goto, PtgAttrChoose) and rendered by the real xls and xlsb token parsers; every 41st (thorough 7th) is also written into FORMULA / BrtFmla* records in windows at A1 and at the last cell and read through worksheet_formula (placement and emptiness of other cells checked), cycling a formula-less name record before the used names and (xls) sheet substreams stored in reverse of BoundSheet8 order; xlsx and ods stored-text formulas with XML-special characters at every subset of 6 positions (two of them directly after another, so that implicit and explicit references mix within a row), explicit and implicit cell references, rows that never carry r, formula text split by CDATA and comments, ods formula cells without cached value, indented documents.",
+   "About 160 k (thorough 4 M) ASTs per binary format over cell refs (4 absolute/relative combinations x columns A..IV/XFD x first/last row), areas, 3-D refs and areas through a non-identity XTI table, defined names, int/float/8- and 16-bit string/bool/error literals, unary, 15 binary, parentheses, fixed- and variable-arity functions (incl. omitted arguments, CHOOSE, calls with 30 / 127 / 128 / 130 / 255 arguments), deleted references (PtgRefErr/AreaErr, 2-D and 3-D) and PtgAttrSum are serialised in both operand classes and once more with the control tokens applications write (PtgAttrSemi, PtgAttrIf/Goto, PtgAttrChoose) and rendered by the real xls and xlsb token parsers; every 41st (thorough 7th) is also written into FORMULA / BrtFmla* records in windows at A1 and at the last cell and read through worksheet_formula (placement and emptiness of other cells checked), cycling a formula-less name record before the used names and (xls) sheet substreams stored in reverse of BoundSheet8 order; xlsx and ods stored-text formulas with XML-special characters at every subset of 6 positions (two of them directly after another, so that implicit and explicit references mix within a row), explicit and implicit cell references, rows that never carry r, formula text split by CDATA and comments, ods formula cells without cached value, indented documents.",
    "Trusted: model/formula.rs (AST renderer and Ptg serialiser written from MS-XLS 2.5.198 / MS-XLSB 2.5.97; relative flags: bit 14 column, bit 15 row). Strings without double quotes, sheet names that need no quoting.",
    "DESIGN.md §2 C14"),
  "C17": ("model_checking", "E1-choice",
@@ -47,7 +47,7 @@ CHECKS = {
    "DESIGN.md §2 C08"),
  "C16": ("model_checking", "E1-choice",
    "stateless choice-tree exploration of workbook metadata (sheet lists, names, visibility, kinds, defined names, date system) in four formats on the real readers",
-   "Workbooks with 0-3 sheets over 9 names (XML specials, quotes, non-ASCII, a C1 control character, astral, 31 characters), every visibility and every sheet kind the format can express, 0-2 reference-valued defined names, both date systems with a date cell on every worksheet, xlsx prefix / xls name packing / ods table:name attribute last / ods style-name collisions across families / xlsx defined-name text split by a comment / .rels attribute order / indented documents / xls substreams in reverse of BoundSheet8 order / a formula-less name record first (xls, xlsb): all choice vectors with <=3 (thorough 4) deviations plus the full product over one-sheet workbooks; sheet_names, sheets_metadata, defined_names and the date cells are compared exactly and in order.",
+   "Workbooks with 0-3 sheets over 9 names (XML specials, quotes, non-ASCII, a C1 control character, astral, 31 characters), every visibility and every sheet kind the format can express, 0-2 reference-valued defined names, both date systems with a date cell on every worksheet, xlsx prefix / xls name packing / ods table:name attribute last / ods style-name collisions across families / xlsx defined-name text split by a comment / .rels attribute order / indented documents / xls substreams in reverse of BoundSheet8 order / a formula-less name record first (xls, xlsb): all choice vectors with <=3 (thorough 4) deviations plus the full product over one-sheet workbooks; sheet_names, sheets_metadata, defined_names and the date cells (xls: NUMBER or RK integer /100) are compared exactly and in order, and must be the same through content auto-detection.",
    "Trusted: the four writers; defined names are reference-valued only.",
    "DESIGN.md §2 C16"),
  "C10": ("model_checking", "E1-choice",
@@ -57,7 +57,7 @@ CHECKS = {
    "DESIGN.md §2 C10"),
  "C19": ("model_checking", "E1-choice",
    "stateless choice-tree exploration of atom strings x every storage form of all four formats on the real readers",
-   "All 3616 strings of <=3 atoms over 15 atoms (XML specials, spaces, tab, LF, ]]>, Latin-1, C1 control U+0091, BMP, astral) plus the empty and a 32767-character string are written in every storage form: xlsx shared/inline/formula string x entity/decimal/hex references/CDATA x plain/1-3 rich runs/phonetic runs x empty <si/> before or between x prefix; xlsb Isst (plain/rich/phonetic)/St/FmlaString; xls SST (plain/rich/ExtRst)/LABEL/STRING in both packings; ods content (text:s variants, literal spaces, spans, paragraphs, with or without a cell comment) or attribute. Exact string equality, and the neighbouring string must be unaffected.",
+   "All 3616 strings of <=3 atoms over 15 atoms (XML specials, spaces, tab, LF, ]]>, Latin-1, C1 control U+0091, BMP, astral) plus the empty and a 32767-character string are written in every storage form: xlsx shared/inline/formula string x entity/decimal/hex references/CDATA/mixed (CDATA + comment + text) x plain/1-3 rich runs/phonetic runs x empty <si/> before or between x prefix; xlsb Isst (plain/rich/phonetic)/St/FmlaString; xls SST (plain/rich/ExtRst, optionally after an empty rich item)/LABEL/STRING in both packings; ods content (text:s variants, literal spaces, spans, paragraphs, with or without a cell comment) or attribute. Exact string equality, and the neighbouring string must be unaffected.",
    "Trusted: the four writers; an empty-string cell may read as Empty; ods tab only in the attribute form.",
    "DESIGN.md §2 C19"),
  "C02": ("model_checking", "E1-choice",
@@ -67,7 +67,7 @@ CHECKS = {
    "DESIGN.md §2 C02"),
  "C03": ("model_checking", "E1-choice",
    "stateless choice-tree exploration of BIFF12 sheets x record kinds x ignorable-record interleavings on the real reader",
-   "Sheets with <=2 cells of ~70 kinds (every exact RK encoding, Real, Isst, St, Bool, Error, all four BrtFmla* kinds, zero-length constant and cached strings, /100 RK floats sensitive to the rounding of the division), the fPhShow bit of the Cell structure set or not, at three anchors incl. the last row/column, with an ignorable record of 7 kinds and 6 payload lengths (1-, 2- and 3-byte length prefixes, 1- and 2-byte ids) at every gap, blank cells and optional pre-sheet-data blocks; all choice vectors with <=2 (thorough 3) deviations; worksheet_range and worksheet_range_ref compared with the model and with each other.",
+   "Sheets with <=2 cells of ~70 kinds (every exact RK encoding, Real, Isst, St, Bool, Error, all four BrtFmla* kinds, zero-length constant and cached strings, /100 RK floats sensitive to the rounding of the division), bulk inside the skipped blocks before the sheet data (records crossing the reader's buffer refills), the fPhShow bit of the Cell structure set or not, at three anchors incl. the last row/column, with an ignorable record of 7 kinds and 6 payload lengths (1-, 2- and 3-byte length prefixes, 1- and 2-byte ids) at every gap, blank cells and optional pre-sheet-data blocks; all choice vectors with <=2 (thorough 3) deviations; worksheet_range and worksheet_range_ref compared with the model and with each other.",
    "Trusted: gen/xlsb.rs (MS-XLSB) and the value model.",
    "DESIGN.md §2 C03"),
  "C12": ("model_checking", "E1-choice",
@@ -77,17 +77,17 @@ CHECKS = {
    "DESIGN.md §2 C12"),
  "C13": ("model_checking", "E1-choice",
    "stateless choice-tree exploration of stream sets x physical compound-file layouts through the real Cfb reader",
-   "138 stream sets with sizes around the 64-byte mini sector, the 4096 mini-stream cutoff and sector multiples are written in every combination (thorough: full 9216-layout product; quick: <=2 deviations + full product on 6 sets) of v3/v4, 8 sector orders, 4 mini-sector orders, unused directory entries, directory order, free sectors, extra FAT sectors, free mini sectors, stale bytes after the name terminator, junk in the upper half of v3 size fields, a mini FAT sector without mini stream; thorough adds a 15 MB stream with a full DIFAT sector. Streams must come back byte-exact. End to end, an xls workbook (small / above the cutoff) in every such layout must read the same cells as in the default layout, also when a BIFF5 Book stream precedes Workbook in the directory.",
+   "138 stream sets with sizes around the 64-byte mini sector, the 4096 mini-stream cutoff and sector multiples are written in every combination (thorough: full 9216-layout product; quick: <=2 deviations + full product on 6 sets) of v3/v4, 8 sector orders, 4 mini-sector orders, unused directory entries, directory order, free sectors, extra FAT sectors, free mini sectors, stale bytes after the name terminator, junk in the upper half of v3 size fields, a mini FAT sector without mini stream; a 7.3 MB stream (partly filled DIFAT sector) in both tiers; thorough adds a 15 MB stream with a full DIFAT sector. Streams must come back byte-exact. End to end, an xls workbook (small / above the cutoff) in every such layout must read the same cells as in the default layout, also when a BIFF5 Book stream precedes Workbook in the directory.",
    "Trusted: gen/cfb.rs (MS-CFB). The directory red-black colouring is not varied.",
    "DESIGN.md §2 C13"),
  "C01": ("model_checking", "E1-choice",
    "stateless choice-tree exploration of logical xlsx sheets x legal physical encodings on the real reader vs a map model",
-   "Every sheet with <=2 (thorough 3) cells of 28 kinds (incl. numbers under General / date / 0.00 styles, formulas caching the empty string or text with XML references) in a 3x4 window at four anchors (A1 .. XFD1048576 corner) is written under every choice vector with <=2 (thorough 3) deviations over cell kinds and 19 variation points (relationship ids in shuffled order, a stale dimension, General xf entries without numFmtId, indented XML, XL/ folder case, applyNumberFormat 1/absent/0, Target before Type in .rels, rows that never carry r, formula text split by CDATA and comments, ...), plus the full encoding product on representative sheets; each file is read through worksheet_range and worksheet_range_ref and compared cell-by-cell and bound-by-bound with the model.",
+   "Every sheet with <=2 (thorough 3) cells of 28 kinds, optionally in a 1904 workbook, (incl. numbers under General / date / 0.00 styles, formulas caching the empty string or text with XML references) in a 3x4 window at four anchors (A1 .. XFD1048576 corner) is written under every choice vector with <=2 (thorough 3) deviations over cell kinds and 25 variation points (XML comments, optional neighbours of sheetData, true/false booleans, sst count below the item count, relationship ids in shuffled order, a stale dimension, General xf entries without numFmtId, indented XML, XL/ folder case, applyNumberFormat 1/absent/0, Target before Type in .rels, rows that never carry r, formula text split by CDATA and comments, ...), plus the full encoding product on representative sheets; each file is read through worksheet_range and worksheet_range_ref and compared cell-by-cell and bound-by-bound with the model.",
    "Trusted: the independent writer gen/xlsx.rs (ECMA-376) and the map model; inputs outside the alphabet (relationship prefixes other than r:, extLst children, _xHHHH_ escapes) are not generated.",
    "DESIGN.md §2 C01"),
  "C04": ("model_checking", "E1-choice",
    "stateless choice-tree exploration: every run-length composition of every small ods grid on the real reader vs a map model",
-   "Every grid up to 4x3/3x4 (thorough 5x4) with 1-3 (thorough 4) non-empty cells over two distinct values of 9 kinds is written in every composition of its runs of equal cells and rows (full product on small grids, <=2/3 deviations on the rest) with covered cells, horizontally merged cells (number-columns-spanned), cell comments, an indented document and trailing-empty variants up to column 16384 / row 1048576, and read back through worksheet_range.",
+   "Every grid up to 4x3/3x4 (thorough 5x4) with 1-3 (thorough 4) non-empty cells over two distinct values of 9 kinds is written in every composition of its runs of equal cells and rows (full product on small grids, <=2/3 deviations on the rest) with covered cells, horizontally merged cells (number-columns-spanned), strings by attribute only, leading runs of 1040 empty cells / 70000 empty rows, cell comments, an indented document and trailing-empty variants up to column 16384 / row 1048576, and read back through worksheet_range.",
    "Trusted: gen/ods.rs (ODF 1.2) and the map model. Empty-string cells and inter-element whitespace are not generated.",
    "DESIGN.md §2 C04"),
  "C05": ("model_checking", "E2-bfs",
@@ -97,7 +97,7 @@ CHECKS = {
    "DESIGN.md §2 C05"),
  "C09": ("model_checking", "E1-choice",
    "stateless choice-tree exploration (full product / deviation-bounded) of ranges x header configs x target shapes on the real RangeDeserializer vs a reference row mapper",
-   "Every small range (origin, 0-3 rows, 1-3 columns, 12 cell values incl. two error kinds, the zero-length string and an integer beyond 2^53), every header mode (none / all / every ordered custom selection incl. padded and unknown names / struct field names) and 12 target record shapes are enumerated; every item, every size_hint before each next() and every CellError kind and absolute position is compared with a reference mapper. Full product on small jobs, all choice vectors with <=2 (thorough 3) deviations from the default on the rest.",
+   "Every small range (origin, 0-3 rows, 1-3 columns, 14 cell values incl. two error kinds, the zero-length string, an integer beyond 2^53 and a fraction below one), every header mode (none / all, each also reached through another builder setting / every ordered custom selection incl. padded and unknown names / struct field names) and 12 target record shapes are enumerated; every item, every size_hint before each next() and every CellError kind and absolute position is compared with a reference mapper. Full product on small jobs, all choice vectors with <=2 (thorough 3) deviations from the default on the rest.",
    "Trusted: the reference conversions in props/c09.rs; serde's derive. Custom error messages are not compared.",
    "DESIGN.md §2 C09"),
  "C11": ("model_checking", "sweep",
